@@ -63,8 +63,8 @@ def extreme(r, fam):
 
 def run(ctx):
     cov = ctx.cov
-    N = ctx.scale(520, 10000)
-    nmax = ctx.scale(16, 80)
+    N = ctx.scale(520, 5000)
+    nmax = ctx.scale(16, 50)
     names = families.ALL_FAMILIES
     for i in range(N):
         r = gen.rng_for(ctx.seed, "C04", i)
